@@ -1,7 +1,9 @@
 """C17, database part: as_type between all ordered kind pairs and casting additions keep the support and, where
 representable, the values.  Theorems: Proofs/DbSpec.v as_type_casts, add_appends; Proofs/DbFold.v cast_row_support,
 fp_row_support, cast_to_values.  Called by props/c17.py as part(ctx) -> found_input."""
+import numpy as np
 import dbgen
+import fpgen
 
 
 def _support(db):
@@ -104,4 +106,274 @@ def part(ctx):
         h.op_metric(m, src, src)
         hists['c17db-%d' % i] = h
     nbad = dbgen.check_histories(ctx, hists, 'C17 database casts', finding_key_of=lambda h, st: 'dbcast:model-vs-impl')
-    return found or nbad > 0
+    found_ext = part_ext(ctx)
+    return found or nbad > 0 or found_ext
+
+
+# --------------------------------------------------------------------------------------------- coverage extension (c)
+# Sources the first stream does not draw: databases built by from_array (dense / sparse, any source dtype, explicit zeros,
+# unsorted columns, rows without any bit), additions whose cast loses information (fractional floats into a count database,
+# counts into a bit database), empty databases; observations it does not make: dtype / class / names / level / props of the
+# converted database, the fingerprints read back from it against the fingerprint-level conversion, fold(bits, fp_type=K) as a
+# conversion, the row a casting addition stores against the fingerprint-level conversion, and the independence of source and
+# converted database under later additions to either; from_array without fp_type (kind inferred from the dtype).
+def _frame(db):
+    o = dbgen.obs_db(db)
+    return {'db_name': db.name, 'names': o['names'], 'level': o['level'], 'bits': o['bits'], 'props': o['props'], 'index': sorted(o['index'], key=str), 'rows': len(o['rows'])}
+
+
+def _fp_nonzero(f):
+    return {j: v for j, v in fpgen.obs(f)['cnt'] if v != 0}
+
+
+def _fp_wf(f):
+    o = fpgen.obs(f)
+    return all(v > 0 for _, v in o['cnt']) and [j for j, _ in o['cnt']] == o['idx']
+
+
+AWKWARD = [0.1, 1.0 / 3, 2.0 / 3, 1e-3, 12345.678, 65535.9999, 1.0000001, 3.999999999, 7.5e-5, 255.99, 1e-300, 40000.000001]
+
+
+def _awkward_batch(h, src, n):
+    """Float fingerprints whose values need the full double mantissa (not dyadic, not representable in float32, within and
+    far below / above the count range): built on dbgen's batch so that names and property columns fit the database."""
+    rng = h.rng
+    out = h.batch(src, n, own=True)
+    F = fpgen.classes()['KFloat']
+    for f in out:
+        bits = f['obs']['bits']
+        idx = fpgen.rand_indices(rng, bits, 5) or [0]
+        kw = {'bits': bits, 'level': f['obs']['level'], 'props': dict(f['props'])}
+        if f['obs']['name']:
+            kw['name'] = f['obs']['name']
+        f['fp'] = F.from_counts({int(j): rng.choice(AWKWARD) for j in idx}, **kw)        # all below 65536: every database here is also cast to counts (uint16)
+        f['obs'] = fpgen.obs(f['fp'])
+    return out
+
+
+def part_ext(ctx):
+    rng = ctx.rng
+    C = fpgen.classes()
+    found = [False]
+    hists = {}
+    stats = ctx.coverage.setdefault('input_distribution', {}).setdefault('db_ext', {})
+
+    def bump(key, n=1):
+        stats[key] = stats.get(key, 0) + n
+
+    def fail(key, what, h, extra=None):
+        found[0] = True
+        ctx.fail(what, dict({'ops': dbgen.descs_of(h.steps)}, **(extra or {})), finding_key=key, kind='property-on-implementation')
+
+    for i in range(ctx.n(30, 400)):
+        h = dbgen.History(rng)
+        h.MAX_LIVE = 10
+        hists['c17dbx-%d' % i] = h
+        awkward = False             # full-mantissa float values present: colliding cells are then not summed (the model adds exactly, float64 rounds)
+        r = rng.random()
+        if r < 0.1:
+            # a database without rows: every conversion to another kind (or with copy=True) fails the same way on both sides
+            h.op_new(rng.choice(dbgen.KINDS), h.level)
+            for k in dbgen.KINDS:
+                h.op_as_type(h.live[0], k, rng.random() < 0.5)
+            bump('source/empty-database')
+            continue
+        if r < 0.45:
+            res = h.rand_from_array()
+            if res[0] != 'ok':
+                bump('source/from_array-refused')
+                continue
+            src = h.live[-1]
+            last = h.steps[-1]['op']
+            bump('source/from_array/%s/%s-as-%s' % ('dense' if last['dense'] else 'sparse', last['src_dtype'], last['kind']))
+        else:
+            h.op_new(rng.choice(dbgen.KINDS), h.level)
+            src = h.live[-1]
+            h.op_add(src, h.batch(src, rng.choice([1, 2, 3, 4]), own=False, lossy=True))
+            bump('source/new+lossy-mixed-addition')
+            if rng.random() < 0.6:
+                h.op_add(src, _awkward_batch(h, src, rng.choice([1, 2])))
+                awkward = True
+                bump('source/+float-fingerprints-with-full-mantissa-values')
+        d = h.pool[src]
+        if d.fp_num == 0:
+            continue
+        sk = dbgen.kind_of_type(d.fp_type)
+        d.name = rng.choice([None, 'db', 'my db'])             # the database's own name (not part of the model's state) must be carried too
+        sup, vals = _support(d)
+        frame = _frame(d)
+        stored_zero = [any(v == 0 for v in row.values()) for row in vals]
+        if d.array.dtype != np.dtype(dbgen.DTYPE[sk]):
+            fail('db-dtype', 'the matrix of a %s database has dtype %s' % (sk, d.array.dtype), h)
+        conv = {}
+        for k in dbgen.KINDS:
+            cp = rng.random() < 0.5
+            rr = h.op_as_type(src, k, cp)
+            ctx.count(('c17dbx', i, sk, k, cp), sk != k)
+            bump('as_type/%s->%s' % (sk, k))
+            if rr[0] != 'ok':
+                fail('as_type-raises', 'as_type raised %s' % rr[1], h)
+                continue
+            t = conv[k] = rr[1]
+            if t.fp_type is not C[k] or t.array.dtype != np.dtype(dbgen.DTYPE[k]):
+                fail('as_type-class', 'as_type %s -> %s: class %s, matrix dtype %s' % (sk, k, t.fp_type.__name__, t.array.dtype), h)
+            if _frame(t) != frame:
+                fail('as_type-frame', 'as_type %s -> %s changed names / level / bits / properties / number of rows' % (sk, k), h, {'before': str(frame)[:600], 'after': str(_frame(t))[:600]})
+            if (t is d) != (k == sk and not cp):
+                fail('as_type-identity', 'as_type(%s, copy=%s) of a %s database %s' % (k, cp, sk, 'returned the database itself' if t is d else 'returned a new object'), h)
+            sup2, vals2 = _support(t)
+            nz2, exp = _nonzero(vals2), _expected(sk, k, vals)
+            if sup2 != sup or nz2 != exp:
+                fail('as_type-nonzero-support' if [sorted(x) for x in nz2] != [sorted(x) for x in exp] else 'as_type-values',
+                     'as_type %s -> %s: stored positions / non-zero positions / representable values differ from the cast of the source' % (sk, k), h)
+            # the fingerprints read back from the converted database = the fingerprint-level conversion of the source's fingerprints
+            for row in range(d.fp_num):
+                if stored_zero[row]:
+                    bump('read-back/row-with-stored-zero-skipped')
+                    continue
+                f_t = dbgen.attempt(lambda: t[row])
+                f_c = dbgen.attempt(lambda: C[k].from_fingerprint(d[row]))
+                bump('read-back/%s->%s' % (sk, k))
+                ctx.count(('c17dbx-rb', i, k, row), True)
+                if f_t[0] != 'ok' or f_c[0] != 'ok':
+                    fail('read-back-raises', 'reading row %d of the converted database / converting the fingerprint raised (%s / %s)' % (row, f_t[1] if f_t[0] != 'ok' else 'ok', f_c[1] if f_c[0] != 'ok' else 'ok'), h)
+                    continue
+                ot, oc = fpgen.obs(f_t[1]), fpgen.obs(f_c[1])
+                if ot['kind'] != k or (ot['bits'], ot['level'], ot['name']) != (oc['bits'], oc['level'], oc['name']) or _fp_nonzero(f_t[1]) != _fp_nonzero(f_c[1]):
+                    fail('read-back-vs-conversion', 'row %d read from as_type(%s) of a %s database differs from %s.from_fingerprint of the source row' % (row, k, sk, k), h,
+                         {'from_database': fpgen.obs_json(ot), 'from_fingerprint': fpgen.obs_json(oc)})
+            # fold to the same length with fp_type=K is a conversion too
+            rf = h.op_fold(src, d.bits, k)
+            bump('fold-as-conversion/%s->%s' % (sk, k))
+            if rf[0] != 'ok':
+                fail('fold-as-conversion-raises', 'fold(bits, fp_type=%s) raised %s' % (k, rf[1]), h)
+            else:
+                tf = rf[1]
+                _, valsf = _support(tf)
+                if tf.fp_type is not C[k] or tf.array.dtype != np.dtype(dbgen.DTYPE[k]) or _nonzero(valsf) != exp or _frame(tf) != frame:
+                    fail('fold-as-conversion', 'fold(%d, fp_type=%s) of a %s database differs from as_type(%s) (class / dtype / non-zero cells / names / properties)' % (d.bits, k, sk, k), h)
+        # the converted database read by iteration and by name (model tie: the class and counts of every fingerprint handed out)
+        live_conv = [(k, g) for k in conv for g in h.live if h.pool[g] is conv[k] and conv[k] is not d]
+        if live_conv:
+            k, g = rng.choice(live_conv)
+            h.op_iter(g)
+            present = [nm for nm in dict.keys(conv[k].fp_names_to_indices) if nm is not None]
+            if present:
+                h.op_getname(g, rng.choice(present))
+            bump('iterate-converted/%s->%s' % (sk, k))
+            it = dbgen.attempt(lambda: [fpgen.obs(f) for f in conv[k]])
+            ix = dbgen.attempt(lambda: [fpgen.obs(conv[k][a]) for a in range(conv[k].fp_num)])
+            if it != ix or it[0] != 'ok' or any(o['kind'] != k for o in it[1]):
+                fail('iterate-vs-index', 'iterating over the database obtained by as_type(%s) gives other fingerprints than indexing it' % k, h)
+        # folding to a shorter length while converting keeps the folded support (where every colliding sum is representable)
+        if d.bits >= 2 and d.bits & (d.bits - 1) == 0 and not awkward:
+            nb = max(1, d.bits >> rng.choice([1, 1, 2, 3, 30]))
+            k = rng.choice(dbgen.KINDS)
+            rf = h.op_fold(src, nb, k)
+            nzsrc = _nonzero(vals)
+            sums = [{} for _ in nzsrc]
+            for row, cells in zip(sums, nzsrc):
+                for j, v in cells.items():
+                    row[j % nb] = row.get(j % nb, 0) + v
+            representable = all(v < 65536 for row in sums for v in row.values()) if 'KCount' in (sk, k) else True
+            integral = all(v == int(v) for row in nzsrc for v in row.values())
+            if rf[0] == 'ok' and representable and (integral or k != 'KCount'):
+                _, valsf = _support(rf[1])
+                bump('fold-shorter-as-conversion/%s->%s' % (sk, k))
+                if [sorted(x) for x in _nonzero(valsf)] != [sorted(x) for x in sums]:
+                    fail('fold-shorter-support', 'fold(%d, fp_type=%s) of a %s database: non-zero positions are not the folded non-zero positions of the source' % (nb, k, sk), h)
+            elif rf[0] != 'ok':
+                fail('fold-as-conversion-raises', 'fold(%d, fp_type=%s) raised %s' % (nb, k, rf[1]), h)
+        # a casting addition stores what the fingerprint-level conversion gives; earlier conversions do not see it
+        before = {k: dbgen.db_lit(dbgen.obs_db(t)) for k, t in conv.items() if t is not d}
+        batch = h.batch(src, rng.choice([1, 2, 3]), own=False, lossy=True)
+        n0 = d.fp_num
+        ra = h.op_add(src, batch)
+        if ra[0] == 'ok':
+            _, vals_now = _support(d)
+            for off, f in enumerate(batch):
+                if not _fp_wf(f['fp']):
+                    bump('cast-on-add/fingerprint-with-zero-count-skipped')
+                    continue
+                fk = f['obs']['kind']
+                bump('cast-on-add/%s-into-%s' % (fk, sk))
+                ctx.count(('c17dbx-add', i, off, fk, sk), fk != sk)
+                want = _fp_nonzero(C[sk].from_fingerprint(f['fp']))
+                got = {j: v for j, v in vals_now[n0 + off].items() if v != 0}
+                if got != want:
+                    fail('cast-on-add-vs-conversion', 'the row stored for a %s fingerprint added to a %s database differs from %s.from_fingerprint of it' % (fk, sk, sk), h,
+                         {'row': {str(j): str(v) for j, v in got.items()}, 'conversion': {str(j): str(v) for j, v in want.items()}})
+            if d.array.dtype != np.dtype(dbgen.DTYPE[sk]):
+                fail('db-dtype', 'after a casting addition the matrix of a %s database has dtype %s' % (sk, d.array.dtype), h)
+            for k, lit0 in before.items():
+                if dbgen.db_lit(dbgen.obs_db(conv[k])) != lit0:
+                    fail('as_type-aliasing', 'an addition to the source changed a database obtained earlier by as_type(%s)' % k, h)
+        # ... and the other way round: add to a converted database, then convert it back
+        others = [k for k in conv if conv[k] is not d and conv[k].fp_num > 0]
+        if others:
+            k = rng.choice(others)
+            hk = [g for g in range(len(h.pool)) if h.pool[g] is conv[k]][0]
+            lit_src = dbgen.db_lit(dbgen.obs_db(d))
+            if hk in h.live:
+                h.op_add(hk, h.batch(hk, rng.choice([1, 2]), own=False, lossy=True))
+                bump('add-to-converted-then-back/%s->%s->%s' % (sk, k, sk))
+                if dbgen.db_lit(dbgen.obs_db(d)) != lit_src:
+                    fail('as_type-aliasing', 'an addition to a database obtained by as_type(%s) changed the source' % k, h)
+                rb = h.op_as_type(hk, sk, rng.random() < 0.5)
+                if rb[0] == 'ok':
+                    _, vb = _support(rb[1])
+                    _, vk = _support(conv[k])
+                    if _nonzero(vb) != _expected(k, sk, vk):
+                        fail('as_type-values', 'as_type back to %s after an addition to the %s database: cells differ from the cast' % (sk, k), h)
+    nbad = dbgen.check_histories(ctx, hists, 'C17 database casts (extended sources)', finding_key_of=lambda h, st: 'dbcast:model-vs-impl')
+    # from_array without fp_type: the kind follows the dtype of the array (bool -> bit, any integer -> count, any float -> float)
+    D, _ = dbgen.mods()
+    from scipy.sparse import csr_matrix
+    for i in range(ctx.n(24, 300)):
+        dt, want_kind = rng.choice([(np.bool_, 'KBit'), (np.uint8, 'KCount'), (np.int32, 'KCount'), (np.int64, 'KCount'), (np.uint16, 'KCount'),
+                                    (np.float32, 'KFloat'), (np.float64, 'KFloat')])
+        bits = rng.choice([8, 16, 1024, 2 ** 20])
+        n = rng.choice([1, 2, 3])
+        rows = []
+        for _ in range(n):
+            idx = fpgen.rand_indices(rng, bits, 5)
+            if dt is np.bool_:
+                v = [1] * len(idx)
+            elif want_kind == 'KCount':
+                v = [rng.choice([1, 2, 7, 200]) for _ in idx]
+            else:
+                v = [rng.choice([0.5, 1.0, 2.25, 9.0, 250.0]) for _ in idx]
+            rows.append(dict(zip(idx, v)))
+        dense = bits <= 16 and rng.random() < 0.5
+        if dense:
+            arr = np.zeros((n, bits), dtype=dt)
+            for a, row in enumerate(rows):
+                for j, v in row.items():
+                    arr[a, j] = v
+        else:
+            arr = csr_matrix((np.array([v for row in rows for v in row.values()], dtype=dt), np.array([j for row in rows for j in row], dtype=np.int64),
+                              np.cumsum([0] + [len(row) for row in rows]).astype(np.int64)), shape=(n, bits))
+        names = ['n%d' % a for a in range(n)]
+        pl = {'dtype': np.dtype(dt).name, 'dense': dense, 'bits': bits, 'rows': [{str(j): v for j, v in row.items()} for row in rows]}
+        ctx.count(('c17dbx-infer', str(pl)), True)
+        bump('from_array-kind-inferred/%s' % np.dtype(dt).name)
+        rdb = dbgen.attempt(lambda: D.FingerprintDatabase.from_array(arr, names, level=5))
+        if rdb[0] != 'ok':
+            found[0] = True
+            ctx.fail('from_array without fp_type raised %s' % rdb[1], pl, finding_key='from_array-inferred-kind', kind='property-on-implementation')
+            continue
+        db = rdb[1]
+        _, v0 = _support(db)
+        # (the matrix keeps the array's own dtype on this route - an int64 count database; C17 speaks of positions and values only)
+        if dbgen.kind_of_type(db.fp_type) != want_kind \
+                or _nonzero(v0) != [{j: fpgen.fr(1 if want_kind == 'KBit' else v) for j, v in row.items()} for row in rows]:
+            found[0] = True
+            ctx.fail('from_array without fp_type on a %s array: kind %s (matrix dtype %s), or cells differ from the array' % (np.dtype(dt).name, dbgen.kind_of_type(db.fp_type), db.array.dtype),
+                     dict(pl, cells=str(_nonzero(v0))[:400]), finding_key='from_array-inferred-kind', kind='property-on-implementation')
+            continue
+        for k in dbgen.KINDS:
+            t = dbgen.attempt(lambda: db.as_type(C[k], copy=True))
+            if t[0] != 'ok' or _nonzero(_support(t[1])[1]) != _expected(want_kind, k, v0) or t[1].array.dtype != np.dtype(dbgen.DTYPE[k]):
+                found[0] = True
+                ctx.fail('as_type(%s) of a database built from a %s array without fp_type' % (k, np.dtype(dt).name), pl, finding_key='as_type-values', kind='property-on-implementation')
+    return found[0] or nbad > 0
